@@ -249,8 +249,33 @@ def _via_callers(facts, b, le, re_, depth=2):
     the actual arguments for the formals and look the obligation up under the caller - recorded invariant, or the same question
     one level further up.  -> [(caller, expression, how)] if every call site is covered, else None."""
     from ..facts import callers_of
-    if depth == 0 or b.kind == 'Closure':
+    if depth == 0:
         return None
+    if b.kind == 'Closure':
+        # a closure inside a helper: its variables are closure parameters, locals or captures of the helper.  If the expression names
+        # none of the helper's own parameters, nothing needs substituting: the obligation is looked up under each caller of the helper.
+        own = _owner(b.name)
+        ob = facts.by_name.get(own)
+        if not ob or len(ob) != 1:
+            return None
+        ob = ob[0]
+        expr = _norm('%s - %s' % (show(le), show(re_)))
+        formals = [ob.local_names.get(i) for i in range(1, ob.arg_count + 1)]
+        if any(f and re.search(r'\b%s\b' % re.escape(f), expr) for f in formals):
+            return None
+        callers = callers_of(facts).get(own)
+        if not callers:
+            return None
+        out = []
+        for cn in sorted(callers):
+            if not cn.startswith(SCOPE):
+                return None
+            cown = _owner(cn)
+            inv = next((v for (o, e), v in INVARIANTS.items() if o == cown and _skeleton(e) == _skeleton(expr)), None)
+            if inv is None:
+                return None
+            out.append((cown.replace(SCOPE, ''), expr, 'recorded invariant'))
+        return out or None
     callers = callers_of(facts).get(b.name)
     if not callers:
         return None
